@@ -287,6 +287,11 @@ class Cloner:
             opset_imports=graph.opset_imports.copy(),
             name=graph.name,
         )
+        # Graph() names anonymous nodes; an anonymous node of the original stays anonymous in the
+        # clone so that both serialize alike.
+        for node, new_node in zip(graph, nodes):
+            if node.name is None:
+                new_node.name = None
         if graph.metadata_props:
             new_graph.metadata_props.update(graph.metadata_props)
         if graph.meta:
